@@ -9,7 +9,6 @@ import (
 	"github.com/btcsuite/btcd/chaincfg/chainhash"
 	"github.com/btcsuite/btcd/txscript"
 	"github.com/btcsuite/btcd/wire"
-	"github.com/btcsuite/btcwallet/waddrmgr"
 	"github.com/btcsuite/btcwallet/wallet/txrules"
 	"github.com/btcsuite/btcwallet/wallet/txsizes"
 	"github.com/btcsuite/btcwallet/walletdb"
@@ -317,5 +316,3 @@ func (r *runner) coveredAlthoughInsufficient(q *createReq, outs []*wire.TxOut, c
 	}
 	return ""
 }
-
-var _ = waddrmgr.ErrLocked
